@@ -473,6 +473,33 @@ def run(run):
                           dict(kind="pristine", nw=nw))
             break
     n_builds += n_reconf
+    # ---- regimes of the task list (real pools): one sensor with more workers than tasks and three layers; a sensor with more than a
+    #      hundred sub-apertures (blocks beyond 64 KiB); workers = None (cpu_count) - the bits of the single-process build every time
+    n12 = 12
+    yy, xx = np.indices((n12, n12))
+    big = (((xx - 5.5) ** 2 + (yy - 5.5) ** 2) <= 36.5).astype(float)
+    regimes = [("one-sensor-many-workers", dict(n_wfs=1, pupil_masks=np.array([geometry(1)["pupil_masks"][0]]), n_layers=3, layer_altitudes=np.array([0.0, 4000.0, 9000.0]),
+                                                layer_r0s=np.array([0.15, 0.3, 0.22]), layer_L0s=np.array([25.0, 40.0, 12.0])), 1, (2, 3, 5)),
+               ("two-sensors-more-workers-than-tasks", dict(), 2, (6, 8)),
+               ("more-than-a-hundred-sub-apertures", dict(n_wfs=1, pupil_masks=np.array([big]), telescope_diameter=12.0), 1, (2, 3))]
+    for label, mod_, nw_, ks in regimes:
+        try:
+            ref_r = np.array(new_object(sc, nw_, mod=mod_).make_covariance_matrix(), copy=True)
+        except Exception:  # noqa - a regime the library cannot build at all is not this check's business
+            continue
+        for kk in ks:
+            before = set(p.pid for p in real_mp.active_children())
+            cm_r = new_object(sc, nw_, threads=kk, mod=mod_)
+            out_r = np.array(cm_r.make_covariance_matrix(), copy=True)
+            cm_r = None
+            gc.collect()
+            n_builds += 1
+            if not same_bits(out_r, ref_r):
+                run.violation("covariance-build:not-bit-identical:real-pool:" + label,
+                              dict(k=kk, n_diff=int((out_r != ref_r).sum()) if out_r.shape == ref_r.shape else None,
+                                   max_rel=float(np.abs(out_r - ref_r).max() / np.abs(ref_r).max()) if out_r.shape == ref_r.shape else None),
+                              dict(kind="regime", label=label, k=kk))
+                break
     if pools_seen == 0:
         run.notes.append("the library never asked for a pool during controlled builds (threads > 1 path changed?)")
     run.traces += n_builds
@@ -526,6 +553,12 @@ def replay(run, case):
     from aotools.turbulence import slopecovariance as sc
     warnings.simplefilter("ignore")
     nw = case.get("nw", 2)
+    if case.get("kind") == "regime":
+        sub = core.Run("C03", "quick", run.seed)
+        sub.known = []
+        globals()["run"](sub)
+        run.violations += [v for v in sub.violations if ":real-pool:" in v.get("key", "")] if sub.violations and isinstance(sub.violations[0], dict) else sub.violations
+        return
     if case.get("kind") == "pristine":
         r0_32, L0_32 = np.array([0.17, 0.31], dtype=np.float32), np.array([22.0, 37.0], dtype=np.float32)
         pr = pristine_hashes(nw)
